@@ -58,12 +58,15 @@ def glue(s: Subject) -> str:
         arms.append(f'"fs" => hc::opt({E}::{fn_name(feats, "from_str")}(&hc::unhex(t[1])).map(|e| e as {r})),')
     if "FromStr" in feats:
         arms.append(f'"ft" => hc::opt(<{E} as ::core::str::FromStr>::from_str(&hc::unhex(t[1])).ok().map(|e| e as {r})),')
+    # `min()` / `max()` need `Ord` on the item: always there for names, for the enum only when the subject derives it
+    mm_ord = "|it, m| if m { ::core::iter::Iterator::min(it) } else { ::core::iter::Iterator::max(it) }"
+    mm_enum = mm_ord if "Ord" in s.derives else "|_it, _m| ::core::option::Option::None"
     if "iter" in feats:
-        arms.append(f'"iter" => hc::run_iter({E}::{fn_name(feats, "iter")}(), &t[1..], |e| {en("e")}),')
+        arms.append(f'"iter" => hc::run_iter({E}::{fn_name(feats, "iter")}(), &t[1..], |e| {en("e")}, {mm_enum}),')
     if "range" in feats:
-        arms.append(f'"range" => hc::run_iter({E}::{fn_name(feats, "range")}(ev(t[1]), ev(t[2])), &t[3..], |e| {en("e")}),')
+        arms.append(f'"range" => hc::run_iter({E}::{fn_name(feats, "range")}(ev(t[1]), ev(t[2])), &t[3..], |e| {en("e")}, {mm_enum}),')
     if "names" in feats:
-        arms.append(f'"names" => hc::run_iter({E}::{fn_name(feats, "names")}(), &t[1..], |n| hc::hex(n)),')
+        arms.append(f'"names" => hc::run_iter({E}::{fn_name(feats, "names")}(), &t[1..], |n| hc::hex(n), {mm_ord}),')
     all_tbl = ", ".join(f"({lit(d, r)}, {E}::{ident})" for d, ident, _ in sd)
     decl = "\n    ".join(s.rust_decl().split("\n"))
     arms_s = "\n                ".join(arms)
